@@ -90,7 +90,9 @@ variants (same node test, same negated fields):
   (`n` = the largest fan-out of the tree, at least 2: more repetitions cannot match); repetitions are
   an order-preserving selection like repetitions of a single child pattern;
 * when a quantified group contributes no item (`V.gap`), the anchor of the next item is waived, as
-  after a single optional child pattern that matched nothing.
+  after a single optional child pattern that matched nothing;
+* the strict anchor after the unnamed wildcard `_` does not reach across the end of a quantified
+  group (`V.rep`): `("a" _)+ . "e"` skips anonymous nodes between the `_` and the `"e"`.
 Outside the fragment (`none`): an anchor before a quantified group or inside a group at its start /
 end, a captured or anchored group whose first element is quantified, a repeated group that itself
 has variants, more than 128 variants. -/
@@ -98,6 +100,7 @@ has variants, more than 128 variants. -/
 inductive V where
   | it (dot : Bool) (i : Item)
   | gap
+  | rep   -- the end of one repetition of a quantified group (its repeat / skip step)
   deriving Inhabited
 
 def concatAll (xs ys : List (List V)) : List (List V) := xs.flatMap fun a => ys.map fun b => a ++ b
@@ -135,9 +138,11 @@ mutual
         | some vs =>
           match q with
           | .one => if d then vs.mapM setDot else some vs
-          | .opt => some ([.gap] :: vs)
-          | .star => if vs.length != 1 then none else some ([.gap] :: (List.range n).flatMap fun k => powV vs (k + 1))
-          | .plus => if vs.length != 1 then none else some ((List.range n).flatMap fun k => powV vs (k + 1))
+          | .opt => some ([.gap] :: vs.map (· ++ [.rep]))
+          | .star => if vs.length != 1 then none else
+              some ([.gap] :: (List.range n).flatMap fun k => powV (vs.map (· ++ [.rep])) (k + 1))
+          | .plus => if vs.length != 1 then none else
+              some ((List.range n).flatMap fun k => powV (vs.map (· ++ [.rep])) (k + 1))
   def expandElems (n : Nat) : List Elem → Option (List (List V))
     | [] => some [[]]
     | e :: rest =>
@@ -150,6 +155,9 @@ end
 def finalizeV : List V → Bool → Bool → List Item
   | [], _, _ => []
   | .gap :: r, pw, _ => finalizeV r pw true
+  -- the strict `_`-before-anchor rule looks at the previous STEP; after a quantified group that is
+  -- the group's repeat step, not the `_` (the implementation decides)
+  | .rep :: r, _, w => finalizeV r false w
   | .it d (.mk _ f p q c) :: r, pw, w =>
     let a : Anchor := if d && !w then (if pw then .strict else .loose) else .none
     let it : Item := .mk a f p q c
